@@ -120,7 +120,7 @@ func (p *proxyConn) readRequest() (*http.Request, error) {
 		req.URL.Host = req.Host
 	}
 
-	req = req.WithContext(withTraceID(p.BaseContext, newTraceID(req.Header.Get(p.RequestIDHeader))))
+	req = req.WithContext(withTraceID(p.ctx, newTraceID(req.Header.Get(p.RequestIDHeader))))
 
 	// Adjust the read deadline if necessary.
 	if !hdrDeadline.Equal(wholeReqDeadline) {
